@@ -131,9 +131,28 @@ func drawQuality(t *rapid.T) float32 {
 
 // DrawBlob draws a metadata blob: nil, empty, 1 byte, odd, even, chunk-like.
 func DrawBlob(t *rapid.T, name string, maxLen int) (b []byte, isNil bool) {
-	switch rapid.IntRange(0, 7).Draw(t, name+"Class") {
+	switch rapid.IntRange(0, 8).Draw(t, name+"Class") {
 	case 0, 1, 2:
 		return nil, true
+	case 8:
+		// what real files carry: the signatures of the three metadata formats (and of their usual
+		// wrappers in other containers), alone or followed by a body. A writer that "normalises" such
+		// a payload is not storing the caller's bytes.
+		heads := [][]byte{[]byte("Exif\x00\x00"), []byte("Exif\x00\x00II*\x00\x08\x00\x00\x00"), []byte("II*\x00\x08\x00\x00\x00"), []byte("MM\x00*\x00\x00\x00\x08"),
+			[]byte("http://ns.adobe.com/xap/1.0/\x00"), []byte("<?xpacket begin=\"\xef\xbb\xbf\" id=\"W5M0MpCehiHzreSzNTczkc9d\"?>"), []byte("<x:xmpmeta xmlns:x=\"adobe:ns:meta/\">"), []byte("\xef\xbb\xbf<?xml"),
+			[]byte("ICC_PROFILE\x00\x01\x01"), append(append([]byte{0, 0, 2, 0x30}, []byte("ADBE\x02\x10\x00\x00mntrRGB XYZ \x07\xcf\x00\x06\x00\x03\x00\x00\x00\x00\x00\x00")...), []byte("acspAPPL")...),
+			[]byte("\xff\xe1\x00\x10Exif\x00\x00"), []byte("\x00\x00\x00\x00"), []byte("\r\n"), []byte(" ")}
+		b = append(b, rapid.SampledFrom(heads).Draw(t, name+"head")...)
+		if n := rapid.IntRange(0, 24).Draw(t, name+"bodyLen"); n > 0 {
+			r := NewRng(rapid.Uint64().Draw(t, name+"bodySeed"))
+			for i := 0; i < n; i++ {
+				b = append(b, r.Byte())
+			}
+		}
+		if rapid.IntRange(0, 3).Draw(t, name+"trail") == 0 {
+			b = append(b, rapid.SampledFrom([][]byte{{0}, {0, 0}, []byte(" \n"), []byte("<?xpacket end=\"w\"?>")}).Draw(t, name+"tail")...)
+		}
+		return b, false
 	case 3:
 		return []byte{}, false
 	case 4:
@@ -151,6 +170,18 @@ func DrawBlob(t *rapid.T, name string, maxLen int) (b []byte, isNil bool) {
 		return b, false
 	default:
 		n := rapid.IntRange(2, maxLen).Draw(t, name+"Len")
+		if maxLen >= 40 && rapid.IntRange(0, 3).Draw(t, name+"Pow2") == 0 {
+			// lengths around powers of two (and 8 below them: a payload plus its chunk header), where
+			// fixed-size staging buffers and size classes change; up to 4 KiB unless the caller allows more
+			kmax := 12
+			for (1 << (kmax + 1)) <= maxLen {
+				kmax++
+			}
+			n = (1 << rapid.IntRange(3, kmax).Draw(t, name+"Pow2k")) + rapid.IntRange(-9, 9).Draw(t, name+"Pow2d")
+			if n < 1 {
+				n = 1
+			}
+		}
 		seed := rapid.Uint64().Draw(t, name+"Seed")
 		r := NewRng(seed)
 		b = make([]byte, n)
